@@ -488,6 +488,7 @@ func updatePath(v Val, t types.Type, path string, nv Val) Val {
 }
 
 func (st *State) loadAt(p PtrV, t types.Type, sub string, old bool) Val {
+	t = resolveTP(t)
 	switch classify(t) {
 	case kScalar:
 		lf := leaf{sub, t, sortOf(t)}
@@ -559,6 +560,7 @@ func (st *State) store(p PtrV, v Val) {
 }
 
 func (st *State) storeAt(p PtrV, t types.Type, sub string, v Val) {
+	t = resolveTP(t)
 	switch classify(t) {
 	case kScalar:
 		tv, ok := v.(TV)
@@ -678,6 +680,7 @@ func (vc *VC) strLit(s string) Term {
 }
 
 func (st *State) zeroVal(t types.Type) Val {
+	t = resolveTP(t)
 	switch classify(t) {
 	case kScalar:
 		return TV{st.zeroTerm(t), t}
@@ -699,6 +702,7 @@ func (st *State) zeroVal(t types.Type) Val {
 
 // freshVal: unconstrained value of a type (with range / well-formedness facts).
 func (st *State) freshVal(prefix string, t types.Type) Val {
+	t = resolveTP(t)
 	switch classify(t) {
 	case kScalar:
 		c := st.declare(prefix, sortOf(t))
